@@ -104,12 +104,33 @@ func (m *Model) setFn(key string, fn *ssa.Function) {
 	if o := fn.Origin(); o != nil {
 		fn = o
 	}
-	m.fn[key] = fn
 	name := key[strings.LastIndex(key, ".")+1:]
+	// two functions fit the role's shape: the one that still carries the
+	// canonical name wins (a newly added look-alike does not take the role over)
+	if prev, ok := m.fn[key]; ok && prev != fn {
+		if prev.Name() == name {
+			return
+		}
+		if fn.Name() != name {
+			m.notes = append(m.notes, "role "+key+" is ambiguous between "+prev.Name()+" and "+fn.Name())
+		}
+		delete(m.fnCanon, prev)
+	}
+	m.fn[key] = fn
 	if fn.Name() != name {
 		m.notes = append(m.notes, "function "+fn.Name()+" plays the role of "+key)
 	}
 	m.fnCanon[fn] = name
+}
+
+// constrained: the function's first type parameter has a constraint with methods
+// (the package's result interface), not `any`.
+func constrained(s *types.Signature) bool {
+	if s.TypeParams().Len() == 0 {
+		return false
+	}
+	it, ok := s.TypeParams().At(0).Constraint().Underlying().(*types.Interface)
+	return ok && it.NumMethods() > 0
 }
 
 // funcString renders a module function the way (*ssa.Function).String does,
@@ -949,6 +970,35 @@ func (m *Model) buildServer(c *core.Ctx) {
 			}
 		}
 	}
+	// the parsed HTTP range: its two fields by the backend argument they supply
+	// (GetBlobRange(ctx, repo, digest, <start>, <end>))
+	for _, f := range fns {
+		for _, g := range facts.WithAnon(f) {
+			for _, ci := range facts.CallsIn(g) {
+				cc := ci.Common()
+				if !cc.IsInvoke() || cc.Method.Name() != "GetBlobRange" || len(cc.Args) != 5 {
+					continue
+				}
+				for i, canon := range map[int]string{3: "start", 4: "end"} {
+					v := facts.Resolve(cc.Args[i])
+					var fa *ssa.FieldAddr
+					switch x := v.(type) {
+					case *ssa.UnOp:
+						fa, _ = x.X.(*ssa.FieldAddr)
+					case *ssa.Field:
+						if st2 := structOf(x.X.Type()); st2 != nil {
+							m.setField(st2.Field(x.Field), canon)
+						}
+					}
+					if fa != nil {
+						if st2 := structOf(fa.X.Type()); st2 != nil {
+							m.setField(st2.Field(fa.Field), canon)
+						}
+					}
+				}
+			}
+		}
+	}
 	// ocirequest.construct
 	for _, f := range pkgFuncs(c, "internal/ocirequest") {
 		if f.Signature.Recv() != nil && (f.Object() == nil || !f.Object().Exported()) && sigString(f.Signature) == "()(string,string)" {
@@ -1037,7 +1087,7 @@ func (m *Model) buildUnify(c *core.Ctx) {
 		switch {
 		case np == 2 && nr == 2 && isUnifier(s.Params().At(0).Type()) && isFuncT(s.Params().At(1).Type()):
 			m.setFn("ociunify.both", f)
-		case np == 2 && nr == 1 && !isUnifier(s.Params().At(0).Type()) && types.Identical(s.Params().At(0).Type(), s.Params().At(1).Type()) && types.Identical(s.Params().At(0).Type(), s.Results().At(0).Type()):
+		case np == 2 && nr == 1 && constrained(s) && !isUnifier(s.Params().At(0).Type()) && types.Identical(s.Params().At(0).Type(), s.Params().At(1).Type()) && types.Identical(s.Params().At(0).Type(), s.Results().At(0).Type()):
 			m.setFn("ociunify.bothResults", f)
 		case np == 3 && nr == 1 && isSeqType(s.Results().At(0).Type()):
 			m.setFn("ociunify.mergeIter", f)
